@@ -4,7 +4,7 @@
 //! Never (a panic is a violation) or May (either is documented behaviour). Loops with numeric exit
 //! conditions are bounded by logical fuel (hook 3); process deaths (abort, stack overflow, OOM) are
 //! located by the supervisor.
-use dashu_base::{BitTest, DivEuclid, DivRem, ExtendedGcd, Gcd, Inverse, RemEuclid, SquareRoot};
+use dashu_base::{EstimatedLog2, BitTest, DivEuclid, DivRem, ExtendedGcd, Gcd, Inverse, RemEuclid, SquareRoot};
 use dashu_float::{round::mode, Context, FBig, Repr};
 use dashu_int::{fast_div::ConstDivisor, IBig, UBig};
 use dashu_ratio::{RBig, Relaxed};
@@ -148,7 +148,11 @@ fn float_surface<Rm: dashu_float::round::Round, const B: dashu_int::Word>(m: &mu
             judge(e, fuel, "ln", || format!("{:?}", x.ln().repr()))
         }
         7 => judge(must(x.repr().is_infinite()), fuel, "to_int", || format!("{:?} {:?} {:?} {:?}", x.to_int().value(), x.trunc().repr(), x.floor().repr(), x.round().repr())),
-        8 => judge(Exp::Never, fuel, "compare/format", || format!("{} {:?} {} {}", x, x.partial_cmp(&y), x == y, format!("{:.3}", y).len())),
+        8 => {
+            judge(Exp::Never, fuel, "compare/format", || format!("{} {:?} {} {}", x, x.partial_cmp(&y), x == y, format!("{:.3}", y).len()))?;
+            // the estimators are total: zero and the infinities have bounds too
+            judge(Exp::Never, fuel, "log2_bounds", || format!("{:?} {:?} {:?}", x.log2_bounds(), y.repr().log2_bounds(), x.log2_est()))
+        }
         9 => judge(Exp::Never, fuel, "to_f64", || format!("{:?} {:?}", x.to_f64().value(), y.to_f32().value())),
         10 => {
             let n = r.range(-40, 40);
@@ -172,7 +176,8 @@ fn float_surface<Rm: dashu_float::round::Round, const B: dashu_int::Word>(m: &mu
         }
         13 => {
             // base change: infinities are allowed, unlimited precision may panic when the result is inexact
-            let e = if x.precision() == 0 && !x.repr().is_infinite() { Exp::May } else { Exp::Never };
+            // (zero converts exactly whatever its precision)
+            let e = if x.precision() == 0 && !x.repr().is_infinite() && !x.repr().is_zero() { Exp::May } else { Exp::Never };
             if x.repr().is_finite() && x.repr().exponent().abs() > 300 {
                 return Ok(());
             }
